@@ -280,10 +280,11 @@ fn main() {
             return;
         }
         let base = 95_000_000u64;
-        // sizes 0..40 (every offset of the nested slice mod 16), then larger; shapes: live only,
+        // sizes 0..40 (every offset of the nested slice mod 16), then larger (rkyv serialises hash
+        // maps through scratch space proportional to their length: thousands of tombstones); shapes: live only,
         // tombstones only, mixed; 1..200 origins; one or both sources; with purged prefixes
         let mut sizes: Vec<usize> = (0..=40).collect();
-        sizes.extend([64, 100, 257, 1000]);
+        sizes.extend([64, 100, 257, 1000, 1500, 2500]);
         if args.thorough() {
             sizes.extend([4096, 10_000]);
         }
